@@ -13,7 +13,7 @@ from ..sched import run_scheduled
 ID = "C03"
 LEVEL = "exploration"
 BUDGET = {"quick": 3200, "thorough": 48000}
-SHARDS = {"quick": 8, "thorough": 16}
+SHARDS = {"quick": 16, "thorough": 16}
 RULE = (
     "Hypothesis-generated control-flow programs: 2-6 function nodes plus 1-4 gates (if/else and route; single/multi target, "
     "fallback, None, END; default_open either way; targets drawn from a small pool so several gates share targets), optional "
